@@ -1184,3 +1184,56 @@ def full_groupby_model(ctx, rule):
                  key=f.qualname + "::groupby-model", input="rx(bind(f, p.param.x, q.param.y, p.param.z)); read; p.x = 2; read -> stale")
     else:
         ctx.ok(rule, f, f.node, "full_groupby groups a non-sorted list completely: one group per key with all its items, in order")
+
+
+def mutable_container_model(ctx, rule):
+    """param._utils._is_mutable_container -- the predicate both un-sharing sites use (per-instance Parameter copies and
+    inherited slot values) -- interpreted abstractly on a list, a dict, a set, an OrderedDict / defaultdict (dict
+    subclasses), a list subclass, a deque (a MutableSequence that is no builtin), a tuple, a string, None and a number.
+    Specification: True exactly for the mutable containers, subclasses and non-builtin ones included (a slot value that
+    is not recognised stays SHARED between the class Parameter, per-instance copies and subclasses)."""
+    from engine.absint import Interp, Obj, Unsupported
+    from engine.loader import AnalysisError
+    f = ctx.repo.func("param._utils._is_mutable_container")
+    kinds = [("list", "list", True), ("dict", "dict", True), ("set", "set", True), ("OrderedDict", "dict", True), ("defaultdict", "dict", True), ("UserList", "list", True),
+             ("deque", None, True), ("tuple", "tuple", False), ("str", "str", False), ("NoneType", None, False), ("int", "int", False)]
+    mutable_abc = {"list", "dict", "set", "OrderedDict", "defaultdict", "UserList", "deque"}
+    bad = []
+    for tname, builtin_base, want in kinds:
+        v = Obj("a_" + tname, __tname__=tname)
+
+        def hook(fn, args, kwargs):
+            if fn == "isinstance" and len(args) == 2 and args[0] is v:
+                spec = args[1] if isinstance(args[1], (tuple, list, set, frozenset)) else (args[1],)
+                names = set()
+                for t in spec:
+                    if isinstance(t, str) and t.startswith("<type "):
+                        names.add(t[6:-1])
+                    elif isinstance(t, Obj):
+                        names.add(t.name)
+                # ABCs: MutableSequence / MutableSet / MutableMapping recognise every mutable container
+                if names & {"abc.MutableSequence", "abc.MutableSet", "abc.MutableMapping", "MutableSequence", "MutableSet", "MutableMapping"}:
+                    return tname in mutable_abc
+                return tname in names or (builtin_base in names)
+            if fn == "type" and len(args) == 1 and args[0] is v:
+                return "<type %s>" % tname
+            if fn == "frozenset" and len(args) == 1 and isinstance(args[0], (tuple, list, set)):
+                return set(args[0])
+            return NotImplemented
+        it = Interp(ctx.hier, call_hook=hook, inline_module_functions=True,
+                    globals={"abc": Obj("abc", MutableSequence=Obj("abc.MutableSequence"), MutableSet=Obj("abc.MutableSet"), MutableMapping=Obj("abc.MutableMapping"))})
+        try:
+            outs = it.run_all(f, {f.params[0]: v})
+        except Unsupported as e:
+            raise AnalysisError("%s: absint cannot interpret _is_mutable_container: %s" % (rule, e))
+        if len(outs) != 1 or outs[0].imprecise or outs[0].kind != "return" or outs[0].value not in (True, False):
+            raise AnalysisError("%s: _is_mutable_container is not interpretable precisely on a %s (%s)" % (rule, tname, outs[0].notes[:2] if outs else "no outcome"))
+        ctx.abstract_cases += 1
+        if outs[0].value is not want:
+            bad.append((tname, outs[0].value))
+    if bad:
+        ctx.fail(rule, f, f.node, "_is_mutable_container answers %s for a %s (%d disagreeing kind(s)): a slot value of that kind is not copied when a per-instance Parameter is created or a "
+                                  "slot is inherited, so editing it through one instance or subclass changes it for the class and everyone else" % (bad[0][1], bad[0][0], len(bad)),
+                 key=f.qualname + "::mutable-container-model", input="Selector(objects=OrderedDict(...)); inst.param.s.objects['k'] = v -> visible on the class")
+    else:
+        ctx.ok(rule, f, f.node, "_is_mutable_container: True exactly for mutable containers, subclasses and non-builtins included (%d kinds)" % len(kinds))
